@@ -243,7 +243,7 @@ fn hostname_parser<I: U8Input>(i: I) -> SimpleResult<I, Vec<u8>> {
                 label_len = 0;
                 true
             }
-            _ if label_len >= 63 - 1 => {
+            c if label_len >= 63 - 1 && (c == b'_' || c == b'-' || is_alpha(c) || is_digit(c)) => {
                 format_err = true;
                 false
             }
